@@ -422,9 +422,44 @@ def _fresh_dt(c, tag):
     return _GDT(y, d, h, mi, s, tag=tag)
 
 
+W3CDTF_FORMS = [
+    ("2003", (2003, 1, 1, 0, 0, 0)), ("2003-12", (2003, 12, 1, 0, 0, 0)), ("2003-12-31", (2003, 12, 31, 0, 0, 0)),
+    ("2003-12-31T10:14:55", (2003, 12, 31, 10, 14, 55)), ("2003-12-31T10:14:55Z", (2003, 12, 31, 10, 14, 55)),
+    ("2003-12-31T10:14:55+01:00", (2003, 12, 31, 9, 14, 55)), ("2003-12-31T10:14:55-05:30", (2003, 12, 31, 15, 44, 55)),
+    ("2003-12-31T10:14:55+00:00", (2003, 12, 31, 10, 14, 55)), ("2003-12-31T10:14:55-00:00", (2003, 12, 31, 10, 14, 55)),
+    ("2003-12-31T23:30:00-01:00", (2004, 1, 1, 0, 30, 0)), ("2004-01-01T00:15:00+00:45", (2003, 12, 31, 23, 30, 0)),
+    ("2003-12-31T10:14:55+14:00", (2003, 12, 30, 20, 14, 55)), ("2003-12-31T10:14:55-12:00", (2003, 12, 31, 22, 14, 55)),
+    ("2003-12-31T10:14:55+05:45", (2003, 12, 31, 4, 29, 55)), ("1999-01-01T00:00:00Z", (1999, 1, 1, 0, 0, 0)),
+]
+
+
+def _w3cdtf_forms_misread():
+    """document-side spellings of a timestamp (W3CDTF profile: year, year-month, date, date-time, with 'Z' or an offset):
+    each must read as the equivalent naive UTC datetime; returns a description of the first that does not"""
+    from pptx import Presentation
+    from pptx.oxml.ns import qn
+
+    cp = Presentation().core_properties
+    for attr, tag in (("created", "dcterms:created"), ("modified", "dcterms:modified"), ("last_printed", "cp:lastPrinted")):
+        setattr(cp, attr, dt.datetime(2000, 1, 1))
+        el = cp._element.find(qn(tag))
+        for text, want in W3CDTF_FORMS:
+            el.text = text
+            try:
+                got = getattr(cp, attr)
+            except Exception as e:
+                return "%s holding %r: reading raised %r" % (tag, text, e)
+            if got != dt.datetime(*want):
+                return "%s holding %r reads %r, the equivalent UTC time is %r" % (tag, text, got, dt.datetime(*want))
+    return None
+
+
 def _replay_dates(model, rec):
     from pptx import Presentation
 
+    w = _w3cdtf_forms_misread()
+    if w:
+        return {"confirmed": True, "witness_class": "w3cdtf-form", "detail": w}
     cp = Presentation().core_properties
     y = model.get("v_year")
     cands = [dt.datetime(y, 1, 2, 3, 4, 5)] if isinstance(y, int) and 1 <= y <= 9999 else []
@@ -582,6 +617,9 @@ def _native_roundtrip(tier="quick", seed=0):
         doc = etree.fromstring(z.read("docProps/core.xml"))
         ok = schema.validate(doc)
         rec("C18.native.core_xml_schema_valid", ok, None if ok else str(schema.error_log.last_error), "core-xml-invalid")
+    w = _w3cdtf_forms_misread()
+    evals += 3 * len(W3CDTF_FORMS)
+    rec("C18.native.w3cdtf_spellings_read_as_utc", w is None, w, "w3cdtf-form")
     # default part on first access
     from pptx.opc.constants import RELATIONSHIP_TYPE as RT
 
